@@ -106,7 +106,7 @@ class Simulator:
             loopcount += 1
             anyChange = False
             
-            if (loopcount > 1000):
+            if (loopcount > max(1000, len(self.propagatables) + 1)):
                 raise Exception('Excessive loop count in topological count')
                 
             for i in range(len(self.propagatables)):
